@@ -71,8 +71,17 @@ def make_spec(st, idx, tier):
         spec["profile"]["model_parameters"]["turnout_factor_upper"] = 100.0
         spec["profile"]["model_parameters"].pop("unit_blocklist", None)
         spec["profile"]["model_parameters"].pop("postal_code_blocklist", None)
+    # contests that exist only through a foreign unit already delivered (a new district, a state outside the election):
+    # they are part of the contest table and may be called like any other
+    present_foreign = []
+    for o in ops:
+        if o["k"] == "foreign":
+            comps = o["u"].split("_")
+            lab = f"{o['row']['postal_code']}_{comps[0]}" if world["district_election"] else o["row"]["postal_code"]
+            if lab not in cs and lab not in present_foreign and (not world["district_election"] or "district" in p["aggregates"]):
+                present_foreign.append(lab)
     lhs, rhs, stop = [], [], []
-    for c in cs:
+    for c in list(cs) + present_foreign:
         r = rng.random()
         if c == knife:
             r = r * 0.6  # always called, either side
@@ -82,15 +91,22 @@ def make_spec(st, idx, tier):
             rhs.append(c)
         if rng.random() < 0.3:
             stop.append(c)
+    same_client = chance(rng, 0.5)
     seq = [dict(k="poll", role="no_calls", fresh_client=True),
-           dict(k="poll", role="calls", fresh_client=True, override=dict(lhs_called_contests=lhs, rhs_called_contests=rhs, stop_model_call=stop))]
+           dict(k="poll", role="calls", fresh_client=not same_client, override=dict(lhs_called_contests=lhs, rhs_called_contests=rhs, stop_model_call=stop))]
+    if same_client and chance(rng, 0.6):
+        # operator history on one client: a poll WITH calls came first, then the calls are withdrawn -- the poll without
+        # calls (the reference for the comparison) must not remember them
+        seq = [dict(k="poll", role="warmup_calls", fresh_client=True, override=dict(lhs_called_contests=lhs, rhs_called_contests=rhs, stop_model_call=stop)),
+               dict(k="poll", role="no_calls", fresh_client=False),
+               dict(k="poll", role="calls", fresh_client=False, override=dict(lhs_called_contests=lhs, rhs_called_contests=rhs, stop_model_call=stop))]
     # invalid calls
     bad = choice(rng, ["both", "unknown_lhs", "unknown_rhs", "unknown_stop", None])
     if bad == "both" and cs:
         c = choice(rng, cs)
         seq.append(dict(k="poll", role="invalid", why=bad, fresh_client=True, override=dict(lhs_called_contests=lhs + [c], rhs_called_contests=[x for x in rhs if x != c] + [c], stop_model_call=stop)))
     elif bad and bad.startswith("unknown"):
-        ghost = choice(rng, ["ZZ", "ZZ_1", cs[0] + "_99", cs[0].lower()])
+        ghost = choice(rng, ["QQ", "QQ_1", cs[0] + "_77", cs[0].lower()])
         ov = dict(lhs_called_contests=list(lhs), rhs_called_contests=list(rhs), stop_model_call=list(stop))
         ov[{"unknown_lhs": "lhs_called_contests", "unknown_rhs": "rhs_called_contests", "unknown_stop": "stop_model_call"}[bad]].append(ghost)
         seq.append(dict(k="poll", role="invalid", why=bad, fresh_client=True, override=ov))
@@ -111,8 +127,15 @@ class Checker(C.BaseChecker):
         st = ex.stats
         role = op.get("role")
         p = rec.profile
+        if role == "warmup_calls":
+            st.probes["calls_made_and_withdrawn_on_one_client"] += 1
+            return []
         if role == "no_calls":
             self.plain = rec
+            if rec.ok:
+                # without any call or stop the model's own output is reported: nothing may sit exactly on a call threshold
+                # unless the draws put it there (checked through the comparison below); remember for the shadow comparison
+                pass
             return []
         if role == "invalid":
             st.evaluations += 1
